@@ -249,6 +249,16 @@ func plan(thorough bool) []planned {
 			cfgs = diamondConfigs()
 		default:
 			cfgs = configsFor(pr.P, thorough)
+			if pr.Bytes != nil && thorough {
+				// <= 2 deviations, without the full product of the session options
+				var few []Config
+				for _, c := range cfgs {
+					if len(c.Dev) <= 2 {
+						few = append(few, c)
+					}
+				}
+				cfgs = few
+			}
 			if pr.PragmaOnly && !thorough {
 				var only []Config
 				for _, c := range cfgs {
@@ -358,7 +368,7 @@ func main() {
 		os.RemoveAll(dir)
 		os.Exit(0)
 	}
-	budget := 100 * time.Second
+	budget := 150 * time.Second
 	if r.Thorough() {
 		budget = 14 * time.Minute
 	}
